@@ -33,7 +33,7 @@ def _ext(node, which):
     if node.kind != "stmt" or not isinstance(s, ast.Expr) or not isinstance(s.value, ast.Call):
         return None
     f = s.value.func
-    if isinstance(f, ast.Attribute) and f.attr in ("extend", "fromlist", "append") and dotted(f.value) == f"self.{which}":
+    if isinstance(f, ast.Attribute) and f.attr in ("extend", "fromlist", "append", "frombytes") and dotted(f.value) == f"self.{which}":
         return s.value
     return None
 
@@ -85,8 +85,64 @@ def r7_conversions(ctx):
                             "index, so contributions that hit the same entry are lost instead of summed (np.add.at or a sparse constructor is required)", f"{COO}:{a.lineno}")
 
 
+RAW_APPENDS = ("frombytes", "fromfile", "fromstring")
+TYPECODE_DTYPES = {"d": {"float", "np.float64", "float64", "np.double", "double", "'float64'", "'d'", "'f8'", "np.float_"},
+                   "I": {"uintc", "np.uintc", "np.uint32", "uint32", "'uint32'", "'I'", "'u4'"}}
+
+
+def r8_raw_appends(ctx):
+    """The triplets live in typed `array` objects ('d' values, 'I' indices).  `extend` / `append` / `fromlist` CONVERT each entry to the
+    typecode; `frombytes` reinterprets memory.  A raw append is exact only for a buffer that has been cast to the storage type first
+    (`x.astype(np.float64).tobytes()`): the bytes of an int64 block read as doubles give 5e-324 for 1, a float32 / int32 block gives half as many
+    entries or a ValueError for a consistent write."""
+    rep = ctx.rep
+    cls = ctx.model.cls("CooMatrix", COO)
+    init = cls.methods.get("__init__")
+    codes = {}
+    for st in ast.walk(init):
+        if isinstance(st, ast.Assign) and isinstance(st.value, ast.Call) and (dotted(st.value.func) or "").split(".")[-1] == "array" and st.value.args \
+                and isinstance(st.value.args[0], ast.Constant) and isinstance(st.value.args[0].value, str):
+            for t in st.targets:
+                d = dotted(t) or ""
+                codes[d.split(".")[-1].lstrip("_").replace("CooMatrix__", "")] = st.value.args[0].value
+    if len(codes) < 3:
+        raise AnalysisError(f"{COO}: typed storage arrays (array('d'), array('I')) not found in CooMatrix.__init__")
+    n = 0
+    for fname, fn in cls.methods.items():
+        for w in ast.walk(fn):
+            if not (isinstance(w, ast.Call) and isinstance(w.func, ast.Attribute)):
+                continue
+            tgt = (dotted(w.func.value) or "").split(".")[-1].lstrip("_").replace("CooMatrix__", "")
+            if tgt not in codes:
+                continue
+            C = f"{COO}:CooMatrix.{fname}"
+            if w.func.attr in ("extend", "append", "fromlist"):
+                n += 1
+                continue
+            if w.func.attr in RAW_APPENDS:
+                n += 1
+                a = w.args[0] if w.args else None
+                ok = False
+                if isinstance(a, ast.Call) and isinstance(a.func, ast.Attribute) and a.func.attr == "tobytes":
+                    src = a.func.value
+                    if isinstance(src, ast.Call) and isinstance(src.func, ast.Attribute) and src.func.attr == "astype" and src.args \
+                            and norm_src(src.args[0]) in TYPECODE_DTYPES.get(codes[tgt], set()):
+                        ok = True
+                if ok:
+                    rep.ok("C15.R8", C, f"`{norm_src(w)[:70]}`: raw append of a buffer cast to the storage type '{codes[tgt]}'")
+                else:
+                    rep.bad("C15.R8", C, w, f"`{norm_src(w)[:80]}` appends raw bytes to the '{codes[tgt]}' storage without casting the source to that type: a block whose dtype is not "
+                            f"{'float64' if codes[tgt] == 'd' else 'uint32'} (an integer-valued or float32 scipy sparse array) is reinterpreted bit-wise (1 -> 5e-324) or rejected "
+                            "although the write is consistent", f"{COO}:{w.lineno}")
+    if n < 6:
+        raise AnalysisError(f"{COO}: fewer than 6 appends to the typed storage arrays found")
+    rep.ok("C15.R8", f"{COO}:CooMatrix", f"{n} appends to the typed storage arrays; all converting (extend / append / fromlist) or cast before a raw append")
+
+
 def run(ctx):
     rep = ctx.rep
+    rep.rule("C15.R8", "the typed storage arrays grow through converting appends, or raw appends of buffers cast to the storage type", 1)
+    r8_raw_appends(ctx)
     rep.rule("C15.R1", "data/row/col extended in lockstep on every path of __setitem__", 4)
     rep.rule("C15.R2", "shape check dominates every extension of data", 3)
     rep.rule("C15.R3", "None is a no-op", 1)
@@ -360,4 +416,12 @@ NEUTRAL = [
     dict(id="c15-n1", canary=True, what="assert rewritten with a different message", file=COO,
          old='                assert value.shape == (len(rows), len(cols)), "inconsistent assignment"\n\n                # extend arrays from given CooMatrix',
          new='                assert value.shape == (len(rows), len(cols)), "shape mismatch"\n\n                # extend arrays from given CooMatrix'),
+]
+MUTANTS += [
+    dict(id="c15-r8-seed", canary=True, what="[seeded by sub-agent] sparse branch appends the value buffer with frombytes without a cast to double", file=COO,
+         old="                self.data.extend(coo.data)\n", new="                self.data.frombytes(coo.data.tobytes())\n", expect="C15.R8"),
+]
+NEUTRAL += [
+    dict(id="c15-n-r8", canary=True, what="sparse branch appends the value buffer with frombytes after a cast to float64", file=COO,
+         old="                self.data.extend(coo.data)\n", new="                self.data.frombytes(coo.data.astype(float).tobytes())\n"),
 ]
